@@ -33,3 +33,21 @@ pub fn mix(a: u64, b: u64) -> u64 {
     z = (z ^ (z >> 27)).wrapping_mul(0x94D049BB133111EB);
     z ^ (z >> 31)
 }
+
+/// process-unique token: pid plus a start-time nonce (pids are reused within hours here: pid_max = 32768,
+/// and objects of killed workers would otherwise be mistaken for one's own)
+pub fn proc_token() -> String {
+    use std::sync::OnceLock;
+    static T: OnceLock<String> = OnceLock::new();
+    T.get_or_init(|| {
+        let n = std::time::SystemTime::now().duration_since(std::time::UNIX_EPOCH).map(|d| d.as_nanos()).unwrap_or(0) as u64;
+        let mut x = n ^ ((std::process::id() as u64) << 40);
+        let mut s = String::new();
+        for _ in 0..5 {
+            s.push(char::from_digit((x % 36) as u32, 36).unwrap());
+            x /= 36;
+        }
+        format!("{}{}", std::process::id(), s)
+    })
+    .clone()
+}
